@@ -11,7 +11,7 @@ LEVEL_TEXT = ("TLC explores ListSeq.tla exhaustively in a small scope (all histo
               "invariants compared after every step, plus random walks and TLC trace validation of long recorded histories "
               "(lists of several hundred elements).  All of it is repeated with elements and lookup probes of two different comparison-compatible "
               "classes (url elements / str probes and the reverse); the iterator is also copied (iter_dup) and its position is observed after "
-              "every step by draining a throw-away copy.")
+              "every step by draining a throw-away copy; the quick scope is replayed once more with the run-time debug level at 5.")
 LEVEL_NOTE = ("Bounded scope for the exhaustive part; beyond it sampled histories only. Trusted: TLC, the harness projection "
               "(harness/list_replay.c), ASan. Elements are spif_str or spif_url objects.")
 TECHNIQUE = "TLA+ spec + TLC exhaustive transition cover replayed on the implementation + TLC trace validation"
@@ -19,6 +19,7 @@ DESIGN_REF = "DESIGN.md section 6 C02"
 CLASSES = ["array", "linked_list", "dlinked_list"]
 INIT = {"a": [], "b": {"live": False, "s": []}, "it": -1}
 MIXED = ["url-elems", "url-keys"]
+LEVELS = [5]          # run-time debug levels the quick scope is replayed at besides 0 (the build is DEBUG=4: 5 enables everything)
 
 
 def argclass(e):
@@ -234,6 +235,10 @@ def run(ctx):
         # compares by its text): stored urls looked up with plain strs, and the other way round
         for mix in MIXED:
             objcheck.replay_cover(ctx, gm, [tok(INIT)], exe, cls + "/" + mix, [cls + ":" + mix], keyfn,
+                                  walks=(walks[0] // 4, walks[1]), pairs=(10000 if ctx.tier == "quick" else 100000))
+        # ... and with the library's run-time debug level raised: trace statements must not change what a list does
+        for lv in LEVELS:
+            objcheck.replay_cover(ctx, gm, [tok(INIT)], exe, "%s/level=%d" % (cls, lv), ["%s:level=%d" % (cls, lv)], keyfn,
                                   walks=(walks[0] // 4, walks[1]), pairs=(10000 if ctx.tier == "quick" else 100000))
     trace_validation(ctx, exe)
     ctx.cov["exhaustive"] = True
